@@ -100,10 +100,16 @@ func (s *rrSched) park(label string) {
 	<-ch
 }
 
-var rrBase = time.Date(2031, 12, 31, 23, 59, 52, 0, time.UTC) // even second (aligned with every interval used), afternoon hour, and the ticks cross midnight, month and year
+var rrBaseSec = time.Date(2031, 12, 31, 23, 59, 52, 0, time.UTC) // even second (aligned with every interval used), afternoon hour, and the ticks cross midnight, month and year
+var rrBaseHour = time.Date(2031, 12, 31, 20, 0, 0, 0, time.UTC) // the same with one tick = one hour
+
+// Every second case runs with hour ticks and maxAge = 1 h: the virtual intervals are then far older than
+// the maximum age while every file's modification time is fresh, so the retention scans that the
+// rotations launch must delete nothing (C14: age is modification time, never the file being written).
+var rrBase, rrUnit = rrBaseSec, time.Second
 
 func rrName(tick int) string {
-	return "r.log." + rrBase.Add(time.Duration(tick)*time.Second).Format("20060102150405")
+	return "r.log." + rrBase.Add(time.Duration(tick)*rrUnit).Format("20060102150405")
 }
 
 func cmdRollReplay(f hx.Flags, r *hx.Result) {
@@ -122,6 +128,10 @@ func cmdRollReplay(f hx.Flags, r *hx.Result) {
 			return err
 		}
 		n++
+		rrBase, rrUnit = rrBaseSec, time.Second
+		if n%2 == 0 {
+			rrBase, rrUnit = rrBaseHour, time.Hour
+		}
 		rollReplayOne(r, &c, filepath.Join(tmp, fmt.Sprintf("t%d", n)))
 		sig := ""
 		for _, s := range c.Hist {
@@ -164,7 +174,10 @@ func rollReplayOne(r *hx.Result, c *rrCase, dir string) {
 	log.VerifRoll = func(_ *log.RollingFileAppender, p int) { s.park(pointLabel(p)) }
 
 	app := &log.RollingFileAppender{Layout: &log.TextLayout{}, FileDir: dir, FileName: "r.log",
-		Rotation: log.TimeRotation{Interval: time.Duration(c.TPI) * time.Second}, MaxAge: 100000}
+		Rotation: log.TimeRotation{Interval: time.Duration(c.TPI) * rrUnit}, MaxAge: 100000}
+	if rrUnit == time.Hour {
+		app.MaxAge = 1
+	}
 	if err := app.Start(); err != nil {
 		r.SetInfra("rolling start: %v", err)
 		return
@@ -255,7 +268,7 @@ func rollReplayOne(r *hx.Result, c *rrCase, dir string) {
 		case "tick":
 			steps = append(steps, "tick")
 			s.mu.Lock()
-			s.now = s.now.Add(time.Second)
+			s.now = s.now.Add(rrUnit)
 			s.mu.Unlock()
 		case "down":
 			steps = append(steps, "down")
@@ -404,7 +417,7 @@ func rrCompare(viol func(key, format string, a ...any), at string, app *log.Roll
 	if base(cur) != nm(o.Cur) || base(old) != nm(o.Old) {
 		viol("published-handles", "%s: current/previous file %q/%q, specification: %q/%q", at, base(cur), base(old), nm(o.Cur), nm(o.Old))
 	}
-	wantMarker := rrBase.Unix() + o.Marker*int64(tpi)
+	wantMarker := rrBase.Unix() + o.Marker*int64(tpi)*int64(rrUnit/time.Second)
 	if marker != wantMarker {
 		viol("interval-marker", "%s: marker %d, specification: %d (interval %d)", at, marker, wantMarker, o.Marker)
 	}
